@@ -33,6 +33,7 @@ X, Y, I_ = ("var", "x"), ("var", "y"), ("var", "i")
 N2, NH, N3 = ("num", "2.000"), ("num", "0.500"), ("num", "3.250")
 PI = ("call", "pi", [])
 ENVS = [(2.0, 3.0, 0.5), (-1.5, 0.5, 2.0), (0.0, -2.0, 1.0), (0.25, 0.0, -3.0)]
+NAN = float("nan")
 STYLES = ["minimal", "full", "nospace"]
 UN_OPS = ["!", "~", ".-", ".+"]
 BIN_OPS = ["^", "**", "*", "/", "%", "+", "-", "and", "or"]
@@ -42,6 +43,7 @@ class Ctx:
     def __init__(self) -> None:
         self.iv = fl.InputVariable("i", minimum=-10.0, maximum=10.0)
         self.engine = fl.Engine("e", input_variables=[self.iv])
+        self.reused = fl.Function.create("r", "x", self.engine)  # one long-lived term, re-configured with every formula
 
 
 def env_of(k: int) -> dict:
@@ -86,6 +88,19 @@ def run_tree(acc: Acc, ctx: Ctx, tree, family: str, flat: list[str] | None = Non
                         f"{text!r} ({style}) parsed as {got_postfix!r}, the table says {want_postfix!r}")
             continue
         loaded.append((style, text, term, case))
+    if loaded:
+        # re-configuring an already loaded term must load the new formula (and reject nothing that create() accepts)
+        style, text, _, case = loaded[0]
+        try:
+            ctx.reused.configure(text)
+            got_pf = ctx.reused.root.postfix()
+            got_v = float(impl_eval(ctx, ctx.reused, env_of(1)))
+        except Exception as ex:  # noqa: BLE001
+            got_pf, got_v = f"{type(ex).__name__}: {ex}", NAN
+        acc.transitions += 1
+        if got_pf != want_postfix or not close(got_v, wants[1], 1e-12, 1e-9):
+            acc.violate("reconfigure", {}, case, [want_postfix, wants[1]], [got_pf, got_v],
+                        f"configure({text!r}) on a loaded term gives postfix {got_pf!r} / value {got_v!r}, expected {want_postfix!r} / {wants[1]!r}")
     for n, (style, text, term, case) in enumerate(loaded):
         ks = range(len(ENVS)) if n == 0 else [0]
         for k in ks:
@@ -131,6 +146,28 @@ def run_tree(acc: Acc, ctx: Ctx, tree, family: str, flat: list[str] | None = Non
 
 def got_postfix_of(term) -> str:
     return term.root.postfix()
+
+
+def check_own_variables(acc: Acc, ctx: Ctx) -> None:
+    """`the term's own variables`: two terms built from one dictionary must not share it, nor keep the caller's object."""
+    params = {"y": 3.0, "k": 2.0}
+    f = fl.Function("f", "y ^ k", ctx.engine, variables=params, load=True)
+    g = fl.Function("g", "y ^ k - 0.500", ctx.engine, variables=params, load=True)
+    case = {"formula": "y ^ k", "family": "variables", "tokens": ["y", "^", "k"], "postfix": "y k ^"}
+    acc.case("own-variables", nontrivial=True)
+    acc.transitions += 4
+    f.variables["k"] = 3.0
+    params["y"] = 10.0
+    vf, vg = float(f.membership(0.0)), float(g.membership(0.0))
+    if vf != 27.0 or vg != 8.5:
+        acc.violate("shared-variables", {}, case, [27.0, 8.5], [vf, vg], f"terms built from one variables dict are not independent: f={vf}, g={vg}")
+    f.unload()
+    try:
+        vg = float(g.membership(0.0))
+    except Exception as ex:  # noqa: BLE001
+        vg = f"{type(ex).__name__}: {ex}"
+    if vg != 8.5:
+        acc.violate("shared-variables", {}, case, 8.5, vg, f"unloading one term changed another: g={vg}")
 
 
 def ill_formed_variants(toks: list[str]):
@@ -267,6 +304,8 @@ def run_shard(tier: str, seed: int, shard):
             acc.guard({"formula": " ".join(toks), "family": "d"}, run_tree, acc, ctx, tree, "d", toks)
             if idx % 16 == part:
                 acc.guard({"formula": " ".join(toks), "family": "ill-formed"}, run_ill_formed, acc, ctx, tree)
+    if shard == ("c", 0, 2):
+        acc.guard({"formula": "y ^ k", "family": "variables"}, check_own_variables, acc, ctx)
     if shard == ("d", 0, 8):
         toks = ["x", "-", "2.000", "^", ".-", "y", "^", "0.500", "%", "i"]
         t = F.parse(toks)
